@@ -1,5 +1,6 @@
 import McpModel.TypedTool.GoTy
 import McpModel.TypedTool.Registry
+import McpModel.TypedTool.Lemmas
 /-!
 E12 TypedTool (C16) — the TYPED CORE of the driver: the C16 monitor on typed data.
 
@@ -281,32 +282,35 @@ def isNilPtr : OutVal → Bool
   | .nilPtr => true
   | _ => false
 
-/-- The C16 monitor: the implementation's observation against the wrapper run with exact numbers. -/
-def monitor (d : ToolD) (ci : CallIn) (o : Obs) : Option Clause :=
+/-- The wrapper run over the tool's OWN schemas on exact numbers: what the monitor judges by. -/
+def ideal (d : ToolD) (ci : CallIn) : Outcome := call idEnv d.tool ci.h ci.args
+
+/-- integers beyond ±2^53 are involved (arguments or handler output) -/
+def bigCall (ci : CallIn) : Bool :=
+  (match ci.args with | .val v => hasBig v | .absent => false) ||
+  (match ci.hout with | some j => hasBig j | none => false)
+
+/-- The diagnosed shapes, tried first on an observation that is not the ideal one: the known defects of
+earlier trees (F12, F9) and the exact-integer clauses, which name the member and both values. -/
+def monDiag (d : ToolD) (ci : CallIn) (o : Obs) : Option Clause :=
   let t := d.tool
-  let ideal := call idEnv t ci.h ci.args
-  let io := obsOf ideal
+  let io := obsOf (ideal d ci)
   let unrep := obsOf (call (refEnv lossy53) t ci.h ci.args)
-  let big := (match ci.args with | .val v => hasBig v | .absent => false) ||
-             (match ci.hout with | some j => hasBig j | none => false)
-  if o.res == .panic then
-    if ci.argsNull && hasDefaults d.isch then some .f12Panic else some .panicked
-  else if t.outSchema.isSome && o.res == .ok && o.sc.isNone then some .f16
-  else if sameObs o io then none
-  else if ci.argsNull && optCeq o.seen (some .null) && sameObs { o with seen := io.seen } io then some .f12NullSeen
+  let big := bigCall ci
+  if ci.argsNull && optCeq o.seen (some .null) && sameObs { o with seen := io.seen } io then some .f12NullSeen
   else if big && o.inv == some true && io.inv == some true && !optCeq o.seen io.seen &&
-      (match defaulted idEnv t.inSchema ci.args, o.seen with
+      (match defaulted idEnv d.isch ci.args, o.seen with
        | some dv, some sv => (blameMember d.ity dv sv).isNone | _, _ => true) &&
-      (match ideal.seen, o.seen with | some w, some g => (numDiff w g).isSome | _, _ => false) then
-    match ideal.seen, o.seen with
+      (match (ideal d ci).seen, o.seen with | some w, some g => (numDiff w g).isSome | _, _ => false) then
+    match (ideal d ci).seen, o.seen with
     | some w, some g =>
       match numDiff w g with
       | some (p, a, b) => some (.recvExact p a b)
       | none => none
     | _, _ => none
   else if big && o.inv == io.inv && optCeq o.seen io.seen && o.res == .ok && io.res == .ok && !optCeq o.sc io.sc &&
-      (match ideal.structured, o.sc with | some w, some g => (numDiff w g).isSome | _, _ => false) then
-    match ideal.structured, o.sc with
+      (match (ideal d ci).structured, o.sc with | some w, some g => (numDiff w g).isSome | _, _ => false) then
+    match (ideal d ci).structured, o.sc with
     | some w, some g =>
       match numDiff w g with
       | some (p, a, b) => some (.carryExact p a b)
@@ -315,10 +319,15 @@ def monitor (d : ToolD) (ci : CallIn) (o : Obs) : Option Clause :=
   else if io.inv == some true && o.inv == some false && (match ci.args with | .val v => hasU64 v | .absent => false) &&
       sameObs o (obsOf (call (refEnv lossy63) t ci.h ci.args)) then some .u64Refused
   else if big && sameObs o unrep then some .f9
-  else if o.inv != io.inv then
+  else none
+
+/-- The contract chain: the first component of the observation `o` that departs from the ideal one `io`,
+in the order of the property's clauses. -/
+def monContract (d : ToolD) (ci : CallIn) (o io : Obs) : Option Clause :=
+  if o.inv != io.inv then
     if io.inv == some true then some .notInvoked else some .invokedInvalid
   else if !optCeq o.seen io.seen then
-    match defaulted idEnv t.inSchema ci.args, o.seen with
+    match defaulted idEnv d.isch ci.args, o.seen with
     | some dv, some sv =>
       match blameMember d.ity dv sv with
       | some p => some (.members p)
@@ -333,6 +342,19 @@ def monitor (d : ToolD) (ci : CallIn) (o : Obs) : Option Clause :=
   else if !optCeq o.sc io.sc then some .scDiffers
   else if o.content != io.content then some .contentDiffers
   else none
+
+/-- The C16 monitor: the implementation's observation against the wrapper run with exact numbers. The
+equality test `sameObs o io` decides WHETHER the observation is accepted; the rest picks the clause. -/
+def monitor (d : ToolD) (ci : CallIn) (o : Obs) : Option Clause :=
+  let io := obsOf (ideal d ci)
+  if o.res == .panic then
+    if ci.argsNull && hasDefaults d.isch then some .f12Panic else some .panicked
+  else if d.osch.isSome && o.res == .ok && o.sc.isNone then some .f16
+  else if sameObs o io then none
+  else
+    match monDiag d ci o with
+    | some c => some c
+    | none => monContract d ci o io
 
 /-! ### the reference validator's verdicts, and the library-discrepancy filter -/
 
@@ -369,8 +391,6 @@ def judgeCall (d : ToolD) (ci : CallIn) (o : Obs) (lib olib : Option Bool) : Opt
 
 /-! ### schema equality (what tools/list advertises against the tool's own schema) -/
 
-def optCeqJ (a b : Option JVal) : Bool := optCeq a b
-
 def optDecEq (a b : Option Dec) : Bool :=
   match a, b with
   | none, none => true
@@ -396,10 +416,6 @@ def isAnySchema : Schema → Bool
   | .mk c ps ap items =>
     c.ty.isEmpty && c.enum.isNone && c.const.isNone && c.minimum.isNone && c.maximum.isNone && c.minLength.isNone &&
     c.maxLength.isNone && c.required.isEmpty && !c.apFalse && c.dflt.isNone && ps.isEmpty && ap.isNone && items.isNone
-
-def lookupP (k : String) : Props → Option Schema
-  | [] => none
-  | (k', s) :: t => if k' = k then some s else lookupP k t
 
 def isAnyOpt : Option Schema → Bool
   | none => true
